@@ -327,12 +327,23 @@ class CmdMixin(object):
         name = msg["nameplate"]
         if ctx["cls"] == AMBIGUOUS:
             n = self.np.get((cm.app, name))
+            got_claimed = any(f.get("type") == "claimed" for f in rest)
             if n is not None:
                 n.taint.add("ambiguous")
                 m = self.mb.get((cm.app, n.mid))
                 if m is not None:
                     m.taint.add("ambiguous")
                     m.t_high = max(m.t_high, st.t)
+                    if got_claimed or err == "crowded":
+                        m.touch(cm.side, st.t)
+                        if len(m.sides) > 2:
+                            m.taint.add("crowd")
+                        if all(x != cm.side for x, _ in n.attempts):
+                            n.attempts.append((cm.side, st.t))
+                    if got_claimed:
+                        m.open_high.add(cm.side)
+                        if cm.side not in n.ok:
+                            n.ok.append(cm.side)
             ctx["allowed"].append(lambda *a: True)
             return
         cm.claim_name = name
